@@ -239,6 +239,14 @@ def handle (line : String) : String :=
       | some t => "V " ++ cpsStr t
       | none => "E key"
     | none => "bad-op"
+  | ["aglx", a] =>
+    -- the exact algorithm (AGL + lower-case digits + unknown component => undefined) of `name2unicode_exact`
+    match parseNameArg a with
+    | some nm =>
+      match Spec.pdfminerAgl glyphs nm with
+      | some t => "V " ++ cpsStr t
+      | none => "N"
+    | none => "bad-op"
   | ["agl", a] =>
     match parseNameArg a with
     | some nm =>
@@ -284,9 +292,9 @@ def handle (line : String) : String :=
       | .error _ => "O"
       | .ok fd =>
         " ".intercalate (codes256.map (fun c =>
-          if Spec.judgedCodeX tables fd c then
-            cpsStr (Spec.specTextX tables fd c) ++ "|" ++ ratToString (Spec.specWidthX tables fd c)
-          else "?"))
+          -- the FULL specification (every code judged); `!` marks a cell outside the property's AGL domain
+          (if Spec.judgedCodeX tables fd c then "" else "!") ++
+            cpsStr (Spec.specTextP tables fd c) ++ "|" ++ ratToString (Spec.specWidthP tables fd c)))
     | none => "bad-op"
   | "t1write" :: padw :: itemws =>
     -- the header `writeHeader` writes for a spelling, and the right-hand side of theorem `t1_roundtrip`
